@@ -1783,14 +1783,20 @@ class CodeGenerator(NodeVisitor):
                 self.write("))")
 
     def visit_Slice(self, node: nodes.Slice, frame: Frame) -> None:
-        if node.start is not None:
-            self.visit(node.start, frame)
-        self.write(":")
-        if node.stop is not None:
-            self.visit(node.stop, frame)
-        if node.step is not None:
-            self.write(":")
-            self.visit(node.step, frame)
+        # Written as a call so that it is also valid inside a tuple
+        # subscript such as ``a[1:2, 3]``.
+        self.write("slice(")
+
+        for idx, item in enumerate((node.start, node.stop, node.step)):
+            if idx:
+                self.write(", ")
+
+            if item is None:
+                self.write("None")
+            else:
+                self.visit(item, frame)
+
+        self.write(")")
 
     @contextmanager
     def _filter_test_common(
